@@ -491,18 +491,27 @@ func init() {
 		},
 		&Indicator{
 			Name: "volatility.KeltnerChannel", In: "hlc", Out: []string{"upper", "middle", "lower"},
-			Note:    "ATR(period) = volatility.Atr with its default MA (SMA_P of the true range); EMA = trend.Ema (seed SMA, multiplier 2/(P+1)); one period for both",
-			Default: P(volatility.DefaultKeltnerChannelPeriod),
-			Rand:    func(r *gen.Rand) Cfg { return P(r.Range(1, 12)) },
+			Note:    "ATR(period) = volatility.Atr with its default MA (SMA_P of the true range); EMA = trend.Ema (seed SMA, multiplier 2/(P+1)); the constructor uses one period for both, the public Atr/Ema fields allow an EMA period <= ATR period + 1 (configuration = [ATR period, EMA period])",
+			Default: P(volatility.DefaultKeltnerChannelPeriod, volatility.DefaultKeltnerChannelPeriod),
+			Rand: func(r *gen.Rand) Cfg {
+				a := r.Range(1, 12)
+				if r.Intn(3) == 0 {
+					return P(a, a)
+				}
+				return P(a, r.Range(1, a))
+			},
 			New: func(c Cfg) Inst {
 				x := volatility.NewKeltnerChannelWithPeriod[float64](c.I[0])
+				if c.I[1] != c.I[0] {
+					x.Ema = trend.NewEmaWithPeriod[float64](c.I[1])
+				}
 				return Inst{Obj: x, Compute: A33(x.Compute), Idle: x.IdlePeriod(), Declared: true}
 			},
-			// Middle = EMA_P(close); Upper/Lower = Middle +/- 2*ATR_P (same position).
+			// Middle = EMA_Pe(close); Upper/Lower = Middle +/- 2*ATR_Pa (same position); w = Pa.
 			Ref: func(c Cfg, in [][]float64) [][]RV {
-				p := c.I[0]
-				atr := SMA(voTR(in[0], in[1], in[2]), p) // position k+p
-				mid := Tail(EMA(in[2], p, 2), 1)
+				pa, pe := c.I[0], c.I[1]
+				atr := SMA(voTR(in[0], in[1], in[2]), pa) // atr[k] at position k+pa
+				mid := Tail(EMA(in[2], pe, 2), pa-(pe-1)) // ema[j] at position j+pe-1
 				n := len(atr)
 				if len(mid) < n {
 					n = len(mid)
